@@ -30,7 +30,8 @@ def load_known():
             kind, _, rest = line.partition(":")
             fields = dict(tok.split("=", 1) for tok in rest.split() if "=" in tok and tok.split("=", 1)[0] in ("property", "mechanism"))
             if kind == "known":
-                known.append({"property": fields.get("property"), "mechanism": fields.get("mechanism"), "text": rest.strip()})
+                text = " ".join(tok for tok in rest.split() if not tok.startswith("property="))
+                known.append({"property": fields.get("property"), "mechanism": fields.get("mechanism"), "text": text})
             elif kind == "fixed":
                 fixed.append({"property": fields.get("property"), "text": rest.strip()})
     return known, fixed
